@@ -15,7 +15,7 @@ RULE = ('case = (container tree over list/tuple/set/frozenset/dict whose leaves 
         'and the walk recurses; for d > height the text is identical to depth=None. Tolerances (statement silent / '
         'documented): str/bytes dict keys exactly at the cut may print in full; empty list/tuple/set beyond the cut may '
         'print in full. Generic cases: trees that also hold pretty_call objects (one / several positional and keyword '
-        'arguments), dataclass / attrs instances (extras installed), deque, OrderedDict, defaultdict, Counter, ChainMap, mappingproxy, namedtuple and SimpleNamespace are '
+        'arguments), instances of user subclasses of the containers, dataclass / attrs instances (extras installed), deque, OrderedDict, defaultdict, Counter, ChainMap, mappingproxy, namedtuple and SimpleNamespace are '
         'judged by a walk driven by the two syntax trees with a level band per node (a list / dict / tuple literal passed '
         'as a positional argument may or may not count as a container of its own): full form required when the highest '
         'count is < d, placeholder of the node\'s own type required when the lowest count is >= d, otherwise same node '
@@ -124,6 +124,12 @@ def strategy(tier):
             st.tuples(st.sampled_from(['box', 'alt']), st.lists(ch, max_size=3),
                       st.lists(st.tuples(st.sampled_from(['a', 'b']), ch).map(list), max_size=2, unique_by=lambda p: p[0])).map(
                 lambda p: ['call', p[0], p[1], p[2]]),
+            # instances of user subclasses of the containers
+            st.tuples(st.sampled_from(['plain', 'repr']), st.lists(ch, max_size=3)).map(lambda p: ['sub', 'list', p[0], ['list', p[1]]]),
+            st.tuples(st.sampled_from(['plain', 'str']), st.lists(ch, max_size=3)).map(lambda p: ['sub', 'tuple', p[0], ['tuple', p[1]]]),
+            st.tuples(st.sampled_from(['plain', 'repr']), st.lists(st.tuples(ghash, ch).map(list), max_size=3)).map(
+                lambda p: ['sub', 'dict', p[0], ['dict', p[1]]]),
+            st.lists(ghash, max_size=3).map(lambda xs: ['sub', 'frozenset', 'plain', ['fset', xs]]),
             # dataclass / attrs instances (extras installed): fields are keyword arguments
             st.tuples(ch, st.lists(ch, max_size=2)).map(lambda p: ['dcinst', 'DInner', [p[0], ['list', p[1]]]]),
             st.tuples(ch, ch).map(lambda p: ['dcinst', 'DFrozen', [p[0], p[1]]]),
@@ -287,6 +293,18 @@ def walk_generic(full, cut, a, b, d, iskey=False):
             raise Bad('%s is inside at least %d containers (depth %d) but is printed in full' % (fd[:80], a, d))
         return
     ph = placeholder_for(full)
+    if (cd != ph and fd != cd and isinstance(full, ast.Call) and isinstance(cut, ast.Call) and len(full.args) <= 1 and len(cut.args) == 1
+            and not full.keywords and not cut.keywords and ast.dump(full.func) == ast.dump(cut.func)
+            and isinstance(cut.args[0], (ast.List, ast.Set)) and looks_like_placeholder(cut.args[0])
+            and (not full.args or (isinstance(full.args[0], (ast.List, ast.Tuple, ast.Dict, ast.Set))
+                                   and ast.dump(cut.args[0]) == placeholder_for(full.args[0])))
+            and not (full.args and isinstance(full.args[0], (ast.List, ast.Set)) and len(full.args[0].elts) == 1 and isinstance(full.args[0].elts[0], ast.Tuple))):
+        # (not the ambiguous [(...)]: a one-element list holding the placeholder of a tuple - judged structurally below)
+        # an instance of a subclass of a container beyond the cut prints as Sub([...]) / Sub({...}): the call of its
+        # own type around the placeholder of the underlying literal
+        if b >= d:
+            return
+        raise Bad('%s is inside at most %d containers (depth %d) but was replaced by a placeholder' % (fd[:80], b, d))
     if cd == ph and fd != ph:
         if b >= d:
             return
@@ -358,6 +376,8 @@ def fixed_cases():
         yield {'v': ['std', 'ddict', 'list', [[['str', 'k'], inner]]], 'd': d, 'width': 79, 'generic': True}
         yield {'v': ['std', 'ntuple', 'Point', [inner, ['int', 5]]], 'd': d, 'width': 79, 'generic': True}
         yield {'v': ['call', 'box', [inner], []], 'd': d, 'width': 79, 'generic': True}
+        yield {'v': ['sub', 'list', 'plain', ['list', [inner, ['sub', 'dict', 'repr', ['dict', [[['str', 'k'], inner]]]]]]], 'd': d, 'width': 79, 'generic': True}
+        yield {'v': ['list', [['sub', 'tuple', 'plain', ['tuple', [inner]]], ['sub', 'frozenset', 'plain', ['fset', [['int', 1]]]], ['sub', 'set', 'plain', ['set', []]]]], 'd': d, 'width': 79, 'generic': True}
         yield {'v': ['call', 'alt', [inner, ['int', 4]], [['a', inner]]], 'd': d, 'width': 79, 'generic': True}
         yield {'v': ['dcinst', 'DInner', [inner, ['list', [inner, ['dcinst', 'AInner', [['int', 5], ['list', [inner]]]]]]]], 'd': d, 'width': 79, 'generic': True}
         yield {'v': ['list', [['dcinst', 'DFrozen', [['list', [['int', 1]]], ['dict', [[['str', 'k'], inner]]]]]]], 'd': d, 'width': 79, 'generic': True}
